@@ -630,6 +630,7 @@ func checkC15(c *ev.Ctx) {
 	c15Stale(c, base)
 	c15Related(c, base)
 	gxzManyArgs(c, base)
+	c15Contents(c, base)
 	// round trips for all presets and both formats, with interop
 	type rt struct {
 		f string
@@ -1010,4 +1011,75 @@ func c15Related(c *ev.Ctx, base string) {
 			}
 		}
 	})
+}
+
+// c15Contents: 'gxz f' and 'gxz -d' on regular files whose content is built against the
+// encoder (gen "carry:" families): literals that lead the range coder into a run of held-back
+// bytes placed, file by file, at every few bytes of distance from the end of the first 64 KiB
+// chunk, and short files with such runs for the .lzma format.  For every regular file the
+// round trip restores the content.
+func c15Contents(c *ev.Ctx, base string) {
+	type cf struct {
+		f, fam string
+	}
+	var files []cf
+	for d := 120; d >= 0; d -= 4 {
+		files = append(files, cf{"xz", fmt.Sprintf("carry:302:%d:120:%s:64", -(65536 - d), []string{"c", "n"}[(d/4)%2])})
+	}
+	for k := 0; k < 12; k++ {
+		files = append(files, cf{"lzma", fmt.Sprintf("carry:302:%d:%d:%s:256", []int{0, 40, 700}[k%3], []int{8, 40, 150}[k/3%3], []string{"c", "n"}[k%2])})
+	}
+	for _, f := range []string{"xz", "lzma"} {
+		id := "contents-" + f
+		noteCase(id)
+		if !want(c, id) {
+			continue
+		}
+		dir := filepath.Join(base, id)
+		os.MkdirAll(dir, 0o755)
+		content := map[string][]byte{}
+		var names []string
+		for k, x := range files {
+			if x.f != f {
+				continue
+			}
+			name := fmt.Sprintf("c%03d.bin", k)
+			content[name] = gen.Data(prng.New(c.Seed, 158, uint64(k)), x.fam, 0)
+			os.WriteFile(filepath.Join(dir, name), content[name], 0o644)
+			names = append(names, name)
+		}
+		r1 := runGxzPlain(c, dir, append([]string{"-F", f, "-1"}, names...))
+		snap := dirSnapshot(dir)
+		c.Eval(id, true)
+		var bad []string
+		var comp []string
+		for _, n := range names {
+			b, ok := snap[n+"."+f]
+			if !ok || !decodesTo(f, b, content[n]) {
+				bad = append(bad, fmt.Sprintf("%s (target present %v, %d bytes)", n, ok, len(b)))
+			}
+			noteCarry(c, "carry:", b)
+			comp = append(comp, n+"."+f)
+		}
+		if r1.Exit != 0 || len(bad) > 0 {
+			c.Violation("roundtrip-compress", map[string]any{"case_id": id, "exit": r1.Exit, "stderr": clipStr(r1.Stderr, 400), "files": len(names), "families": "carry (see gen)",
+				"what": fmt.Sprintf("gxz -F %s on %d regular files with content built against the range coder: exit %d, %d file(s) without a complete result: %v", f, len(names), r1.Exit, len(bad), bad)})
+			os.RemoveAll(dir)
+			continue
+		}
+		r2 := runGxzPlain(c, dir, append([]string{"-d"}, comp...))
+		snap = dirSnapshot(dir)
+		bad = nil
+		for _, n := range names {
+			if !bytes.Equal(snap[n], content[n]) {
+				bad = append(bad, n)
+			}
+		}
+		if r2.Exit != 0 || len(bad) > 0 {
+			c.Violation("roundtrip-restore", map[string]any{"case_id": id, "exit": r2.Exit, "stderr": clipStr(r2.Stderr, 400),
+				"what": fmt.Sprintf("gxz -d on the %d results: exit %d, not restored: %v", len(names), r2.Exit, bad)})
+		}
+		c.Count("roundtrips_with_coder_built_content", int64(len(names)))
+		os.RemoveAll(dir)
+	}
 }
